@@ -204,6 +204,7 @@ class Rec:
         self.awaited = set()   # indices of emissions whose result was awaited / yielded
         self.jump = None       # 'break' / 'continue' until the enclosing loop consumes it
         self.order = []        # ('store'|'emit'|'call', index) in program order
+        self.mutated = []      # (text of a mutated base value, number of calls recorded at that moment)
         self.awaited_calls = set()   # indices into calls of opaque calls whose value was awaited / yielded (name_calls mode)
         self.stale = set()     # texts of tests that may not be re-used (a value they mention was mutated since)
 
@@ -214,6 +215,7 @@ class Rec:
         r.stale = set(self.stale)
         r.awaited_calls = set(self.awaited_calls)
         r.order = list(self.order)
+        r.mutated = list(self.mutated)
         r.env = dict(self.env)
         r.conds = list(self.conds)
         r.stores = list(self.stores)
@@ -438,7 +440,7 @@ class SymEval:
                 key = src(t)
                 known = None
                 if _pure_test(t) and key not in q0.stale:
-                    known = next((o for c, o in reversed(q0.conds) if c == key), None)
+                    known = _known_outcome(q0, key)
                 for outcome, arm in ((True, node.body), (False, node.orelse)):
                     if known is not None and outcome != known:
                         continue
@@ -520,6 +522,14 @@ class SymEval:
                 fexpr = self.val(q, node.func)
                 call = ast.Call(func=fexpr, args=acc, keywords=[ast.keyword(arg=k.arg, value=self.val(q, k.value)) for k in node.keywords])
                 q = q.copy()
+                if self.name_calls and isinstance(fexpr, ast.Name) and fexpr.id in ('len', 'isinstance', 'callable') and not node.keywords:
+                    # an observer of an unchanged value has the value it had: same symbol (so that tests of it agree)
+                    txt = src(call)
+                    prev = next((k for k in range(len(q.calls) - 1, -1, -1)
+                                 if isinstance(q.calls[k][0], ast.Call) and src(q.calls[k][0]) == txt), None)
+                    if prev is not None and not any(m_k > prev and m_b in txt for m_b, m_k in q.mutated):
+                        yield q, ast.Name(id='C%d' % prev, ctx=ast.Load())
+                        continue
                 q.calls.append((call, q.susp, loop))
                 q.order.append(('call', len(q.calls) - 1))
                 # a local list literal that is appended to: functional update (inside a loop: one representative element)
@@ -622,7 +632,7 @@ class SymEval:
                     yield from self.block(s.body if t.value else s.orelse, q0, fn, loop, depth)
                     continue
                 if _pure_test(t) and key not in q0.stale:
-                    known = next((o for c, o in reversed(q0.conds) if c == key), None)
+                    known = _known_outcome(q0, key)
                 for outcome, arm in ((True, s.body), (False, s.orelse)):
                     if known is not None and outcome != known:
                         continue
@@ -700,8 +710,21 @@ def _pure_test(t):
     return True
 
 
+def _known_outcome(r, key):
+    """outcome already recorded on this path for the same test, modulo negation spellings (not X / X is not Y / X != Y)"""
+    nk, pol = norm_cond(key, True)
+    for c, o in reversed(r.conds):
+        if c in r.stale:
+            continue
+        nc, no = norm_cond(c, o)
+        if nc == nk:
+            return no if pol else (not no)
+    return None
+
+
 def _mark_stale(r, base):
     b = src(base)
+    r.mutated.append((b, len(r.calls)))
     for c, o in r.conds:
         if b in c:
             r.stale.add(c)
